@@ -199,6 +199,9 @@ def directed_docs():
         "StringDataEncoding@encoding=UTF-32+byteOrder=LSB": ir.PType("X_T", "string", ir.StrEnc("UTF-32", 64, None, None, ir.LSB)),
         "AbsoluteTime scale+offset+epoch+units": ir.PType("X_T", "abstime", I(32), "s", (), "TAI", None, 0.001, 100.0),
         "AbsoluteTime offset only": ir.PType("X_T", "abstime", I(32), "s", (), None, None, None, 5.0),
+        "AbsoluteTime scale 0 with offset (a constant time)": ir.PType("X_T", "abstime", I(32), "s", (), None, None, 0.0, 5.0),
+        "RelativeTime scale 0 only": ir.PType("X_T", "reltime", I(16), "s", (), None, None, 0.0, None),
+        "AbsoluteTime scale 1 offset 0": ir.PType("X_T", "abstime", I(32), "s", (), None, None, 1.0, 0.0),
         "AbsoluteTime scale only": ir.PType("X_T", "abstime", I(32), "s", (), "2000-01-01T00:00:00", None, 2.0, None),
         "AbsoluteTime without units": ir.PType("X_T", "abstime", I(32), None, (), "GPS"),
         "RelativeTime float encoded + OffsetFrom": ir.PType("X_T", "reltime", ir.FloatEnc(64), "us", (), None, "SRC_SEQ_CTR"),
@@ -240,6 +243,8 @@ def directed_docs():
         "RestrictionCriteria/BooleanExpression": ir.Container("Child", (("p", "Y"),), "CCSDSPacket", ir.BoolExpr(ir.And((ir.Condition("PKT_APID", "==", right_value="5", right_cal=False), ir.Or((ir.Condition("TYPE", "==", right_value="1", right_cal=False), ir.Condition("X", "<", right_param="VERSION", left_cal=False, right_cal=False))))))),
         "BaseContainer without RestrictionCriteria": ir.Container("Child", (("p", "Y"),), "CCSDSPacket", None),
         "descriptions": ir.Container("Child", (("p", "Y"),), "CCSDSPacket", (ir.Comparison("PKT_APID", "5"),), False, 'short "q" & <b>', "long\ntext with  spaces"),
+        "descriptions ending in blank lines": ir.Container("Child", (("p", "Y"),), "CCSDSPacket", (ir.Comparison("PKT_APID", "5"),), False, "short ", "first line  \n second line \n\n\n"),
+        "descriptions of line breaks only": ir.Container("Child", (("p", "Y"),), "CCSDSPacket", (ir.Comparison("PKT_APID", "5"),), False, None, "\n\n"),
     }.items():
         types = tuple(ts) + (xt, yt)
         params = tuple(ps) + (ir.Param("X", "X_T", "sd of X", "ld of X"), ir.Param("Y", "Y_T"))
